@@ -227,6 +227,9 @@ def check_node(n, d, v, path='root'):
         vals = [value(x, d) for x in n.kids]
     except Unjudged:
         return
+    except Exception as e:
+        v('C17:operand-raises-%s' % type(e).__name__, dict(node=n.spec, date=d, error=repr(e)[:200]))
+        return
     known = [x for x in vals if x is not None]
     nothing = lambda g: g is None or g == 0
     if k == '|':
@@ -284,6 +287,9 @@ def check_tree(case, exclude=True):
                 res.v('C17:resource-value-is-not-calendar-value-or-0', dict(date=d, calendar=cv, resource=rv))
         except ZeroDivisionError:
             pass
+        except Exception as e:
+            res.v('C17:valid-expression-raises-%s' % type(e).__name__, dict(tree=t, date=d, error=repr(e)[:200]))
+            break
         if any(abs(d - b) <= timedelta(days=1) for b in bs):
             near = True
     n = ops_count(t)
@@ -322,6 +328,9 @@ def check_search(case, exclude=True):
                 break
     except ZeroDivisionError:
         res.label('unjudged-division-by-zero-operand')
+        return res
+    except Exception as e:
+        res.v('C17:valid-expression-raises-%s' % type(e).__name__, dict(case=case, error=repr(e)[:200]))
         return res
     try:
         got = r.get_nearest_availability_date(s, direction, md)
